@@ -215,9 +215,11 @@ def cd(args, stdin=None):
     If no directory is specified (i.e. if `args` is None) then this
     changes to the current user's home directory.
     """
+    global DIRSTACK
     env = XSH.env
     oldpwd = env.get("OLDPWD", None)
     cwd = env["PWD"]
+    saved_stack = list(DIRSTACK)
 
     follow_symlinks = False
     if len(args) > 0 and args[0] == "-P":
@@ -286,6 +288,7 @@ def cd(args, stdin=None):
         if ON_WINDOWS and _is_unc_path(d):
             d = _unc_map_temp_drive(d)
     if not _change_working_directory(d, follow_symlinks):
+        DIRSTACK = saved_stack
         return None, None, 1
     return None, None, 0
 
@@ -325,6 +328,7 @@ def pushd_fn(
     env = XSH.env
 
     pwd = env["PWD"]
+    saved_stack = list(DIRSTACK)
 
     if env.get("PUSHD_MINUS", False):
         BACKWARD = "-"
@@ -372,8 +376,10 @@ def pushd_fn(
         if ON_WINDOWS and _is_unc_path(new_pwd):
             new_pwd = _unc_map_temp_drive(new_pwd)
         if cd:
+            if not _change_working_directory(new_pwd):
+                DIRSTACK = saved_stack
+                return None, f"pushd: could not change directory to {new_pwd}\n", 1
             DIRSTACK.insert(0, os.path.expanduser(pwd))
-            _change_working_directory(new_pwd)
         else:
             DIRSTACK.insert(0, os.path.expanduser(new_pwd))
 
@@ -414,6 +420,7 @@ def popd_fn(
     global DIRSTACK
 
     env = XSH.env
+    saved_stack = list(DIRSTACK)
 
     if env.get("PUSHD_MINUS"):
         BACKWARD = "-"
@@ -466,8 +473,9 @@ def popd_fn(
         if cd:
             env = XSH.env
             pwd = env["PWD"]
-
-            _change_working_directory(new_pwd)
+            if not _change_working_directory(new_pwd):
+                DIRSTACK = saved_stack
+                return None, f"popd: could not change directory to {new_pwd}\n", 1
 
             if ON_WINDOWS:
                 drive, rem_path = os.path.splitdrive(pwd)
